@@ -157,6 +157,15 @@ def s1(ctx, rep):
                     st = st._parent
                 dom = (st, l if fn_name(l) == "all" else r, r if fn_name(r) == "any" else l, bo)
     if dom is None:
+        # weak part present, strict part is not an `any(a < rows)`: recognisably not the definition of dominance
+        for bo in walk_shallow(f.node):
+            if isinstance(bo, ast.BinOp) and isinstance(bo.op, (ast.Mult, ast.BitAnd)):
+                sides = [deref(f, bo.left), deref(f, bo.right)]
+                if any(isinstance(x_, ast.Call) and fn_name(x_) == "all" for x_ in sides):
+                    rep.bad("S1", "agreement", "pareto_efficient: dominated = ALL(a <= rows) and ANY(a < rows) on the same operands", f, bo,
+                            f"`{U(bo)[:120]}`: the strict part of dominance is not `any(a < rows)` over the same operands (a surrogate such as a "
+                            "comparison of row sums is not equivalent in floating point or with infinite objectives): dominated points stay on the front")
+                    return
         raise AnchorError("pareto_efficient: `dominated = all(a <= X) * any(a < X)` not recognised")
     st, al, an, bo = dom
     ca, cn = al.args[0], an.args[0]
